@@ -1028,10 +1028,10 @@ theorem xslices_agree_reduce (zero : β) (f : β → α → β) (init : β) (l :
   exact ⟨F, fun fuel hf => by have := (hF fuel hf init).1; rwa [annot_fst] at this⟩
 
 /-- `Repeat` (`n ≥ 0`): `xslices.Repeat` returns what `iterator.Repeat` yields. -/
-theorem xslices_agree_repeat (zero a : α) (n : Nat) :
+theorem xslices_agree_repeat (zero a : α) (n : Nat) (hn : (n : Int) ≤ Stdlib.allocLimit) :
     XSlices.repeat_ zero a (n : Int) = some (List.replicate n a) ∧
     Yields (Iter.repeat_ a) (Iter.repeatInit (n : Int)) (List.replicate n a) := by
-  refine ⟨by rw [repeat_eq]; simp, _, _, _, repeat_denotes a (n : Int), ?_⟩
+  refine ⟨by rw [repeat_eq]; simp; omega, _, _, _, repeat_denotes a (n : Int), ?_⟩
   simp
 
 /-- `Compact` (comparable elements): `xslices.Compact` (= `slices.Compact(slices.Clone(s))`) returns what
